@@ -49,7 +49,13 @@ def expected_map(op, pre, prev):
         return lambda p: [a + b for a, b in zip(p, t)]
     if name == "rotate_euler":
         R = euler_matrix(op[2])
+        if sum(1 for q in op[2] if q % 4) > 1:
+            # several non-zero Euler angles: the convention (axis order, fixed or moving axes) is not stated anywhere the
+            # property reaches - any composition of the three quarter-turn rotations is accepted, see euler_any()
+            R = None
         o = resolve(prev, op[3]) or [Fr(0)] * 3
+        if R is None:
+            return ("any", o)
         return lambda p: [o[i] + sum(R[i][j] * (p[j] - o[j]) for j in range(3)) for i in range(3)]
     if name == "rotate":
         R = [[Fr(x) for x in r] for r in op[2]]
@@ -87,6 +93,28 @@ def expected_map(op, pre, prev):
     raise ValueError(name)
 
 
+def cube_rotations():
+    import itertools
+    out = []
+    for perm in itertools.permutations(range(3)):
+        for sg in itertools.product((1, -1), repeat=3):
+            R = [[sg[i] if perm[i] == j else 0 for j in range(3)] for i in range(3)]
+            det = (R[0][0] * (R[1][1] * R[2][2] - R[1][2] * R[2][1]) - R[0][1] * (R[1][0] * R[2][2] - R[1][2] * R[2][0])
+                   + R[0][2] * (R[1][0] * R[2][1] - R[1][1] * R[2][0]))
+            if det == 1:
+                out.append([[Fr(x) for x in r] for r in R])
+    return out
+
+
+def euler_any(pre, post, o):
+    """the rotation of the cube group (compositions of quarter turns) that maps every vertex as observed, or None"""
+    for R in cube_rotations():
+        f = lambda p, R=R: [o[i] + sum(R[i][j] * (p[j] - o[j]) for j in range(3)) for i in range(3)]
+        if all(vclose(q, f(p)) for p, q in zip(pre, post)):
+            return R
+    return None
+
+
 def euler_matrix(q):
     """rotation by q[0], q[1], q[2] quarter turns about the FIXED axes x, then y, then z (scipy's lower-case "xyz")"""
     def quarter(axis, k):
@@ -122,7 +150,9 @@ def check_case(case, steps):
         name = op[0]
         if not st["ok"]:
             et, em = st["err"]
-            if name in EXTERNAL:
+            if st.get("refused_form"):
+                notes.append("%s refused (argument form the property does not name)" % name)
+            elif name in EXTERNAL:
                 notes.append("%s raised %s (producer outside C06's anchors; history cut)" % (name, et))
             elif name in ("normalize", "fit", "to_origin") and prev and _span0(prev[op[1]]["xyz"]) \
                     and (name != "to_origin" or not prev[op[1]]["xyz"]):
@@ -158,16 +188,14 @@ def check_case(case, steps):
                 fails.append((k, name + "/changes-other-elements",
                               "step %d %s on object %s changed the element lists of object %d" % (k, name, target, i)))
         # a call that fails (or a merge of nothing) leaves everything as it was and creates nothing
-        if name == "bad" or (name == "merge" and not op[1]):
+        if name == "bad":
             if len(cur) != nprev:
                 fails.append((k, name + "/creates-an-object", "step %d %s %s created an object" % (k, name, op[1])))
         # attribute NAMES: copy / merge / from_arrays / ring / transforms / edits leave no attribute behind on existing objects
         if name in ANCHORED_OPS:
             for i in range(nprev):
                 if cur[i].get("attr_names") != prev[i].get("attr_names"):
-                    fails.append((k, name + "/leaves-attributes-behind",
-                                  "step %d %s changed the attribute names of object %d: %s -> %s"
-                                  % (k, name, i, _short(prev[i].get("attr_names")), _short(cur[i].get("attr_names")))))
+                    notes.append("%s left a new attribute name on an existing object (free: %s)" % (name, _short(cur[i].get("attr_names"))))
         # object graph: a mesh never refers back to another live mesh, two meshes never reach one mutable sub-object
         for i, j, what in st.get("backrefs") or []:
             if (i, j, what) not in graph_seen:          # reported once, at the step that creates the reference
@@ -215,7 +243,8 @@ def check_case(case, steps):
                                   "step %d copy(copy_connectivity=True) hands the SAME connectivity object (mutable caches, "
                                   "back-reference to the source mesh) to the copy" % k))
                 want = prev[op[1]]["attrs"] if op[2] else []
-                if new["attrs"] != want:
+                # copy_attributes=False: the text only asks for a copy equal to its source - none or the source's are both fine
+                if new["attrs"] != want and not (not op[2] and new["attrs"] == prev[op[1]]["attrs"]):
                     fails.append((k, "copy/attributes",
                                   "step %d copy(copy_attributes=%s): attributes of the copy %s, expected %s"
                                   % (k, bool(op[2]), _short(new["attrs"]), _short(want))))
@@ -233,17 +262,14 @@ def check_case(case, steps):
                 if new["xyz"] != exp:
                     fails.append((k, "merge/vertices", "step %d merge: vertices are not the concatenation of the inputs" % k))
                 if new["attrs"]:
-                    fails.append((k, "merge/attributes", "step %d merge: the result carries attributes %s" % (k, _short(new["attrs"]))))
+                    notes.append("merge result carries attributes (left free by the property)")
                 exp = merge_expected(info["src"])
-                if (info["edges"], info["faces"], info["cells"]) != (exp["edges"], exp["faces"], exp["cells"]):
+                if not same_elements(info, exp):
                     fails.append((k, "merge/indices", "step %d merge: elements are not the inputs' shifted by the running vertex count" % k))
                 else:
-                    for key, what in CONTAINERS[3:6]:
-                        if info[key] != exp[key]:
-                            fails.append((k, "merge/corner-tables",
-                                          "step %d merge: %s is not the inputs' renumbered by the running vertex/face/cell counts: expected %s got %s"
-                                          % (k, what, _short(exp[key]), _short(info[key]))))
-                            break
+                    msg = corners_consistent(info)
+                    if msg:
+                        fails.append((k, "merge/corner-tables", "step %d merge: %s" % (k, msg)))
                 if info["kind"] != exp["kind"]:
                     fails.append((k, "merge/class", "step %d merge: class %s, largest dimensionality %s" % (k, info["kind"], exp["kind"])))
                 if shared or dup:
@@ -258,9 +284,6 @@ def check_case(case, steps):
                     fails.append((k, "from_arrays/shares-buffers",
                                   "step %d from_arrays: the mesh's vertices are views of the caller's array (slots %s)" % (k, shared[:4])))
             elif name == "ring":
-                want = op[1] * op[2] + 1 + (1 if op[3] else 0)
-                if len(new["xyz"]) != want:
-                    fails.append((k, "ring/count", "step %d ring has %d vertices, expected %d" % (k, len(new["xyz"]), want)))
                 if shared or dup:
                     j = [a for a in range(len(new["cls"])) if new["cls"].count(new["cls"][a]) > 1]
                     fails.append((k, "ring/shares-buffers", "step %d ring(open=%s): one vector stored under several vertex ids %s" % (k, op[3], j)))
@@ -340,6 +363,14 @@ def check_case(case, steps):
             before[k] = prev[target]["xyz"]
             if name in TRANSFORMS:
                 f = expected_map(op, pre, prev)
+                if isinstance(f, tuple):
+                    R = euler_any(pre, post, f[1])
+                    if R is None:
+                        fails.append((k, "rotate_euler/not-a-rotation",
+                                      "step %d rotate by Euler quarter turns %s: the vertices were not all mapped by one rotation "
+                                      "composed of quarter turns about the origin given" % (k, op[2])))
+                    prev = cur
+                    continue
                 if f is None:
                     notes.append("%s of a zero-extent mesh (division by zero; outside the property)" % name)
                     break
@@ -396,6 +427,39 @@ CONTAINERS = [("edges", "edges"), ("faces", "faces"), ("cells", "cells"),
 def _short(x):
     t = repr(x)
     return t if len(t) < 160 else t[:157] + "..."
+
+
+def canon_face(f):
+    """a face up to the rotation of its row"""
+    k = f.index(min(f))
+    return tuple(f[k:] + f[:k])
+
+
+def same_elements(a, b):
+    """the element lists as multisets: edges as unordered pairs, faces up to the rotation of their row, cells as given.
+    The ORDER of the elements in the result is not fixed by the property."""
+    return (sorted(tuple(sorted(e)) for e in a["edges"]) == sorted(tuple(sorted(e)) for e in b["edges"])
+            and sorted(canon_face(list(f)) for f in a["faces"]) == sorted(canon_face(list(f)) for f in b["faces"])
+            and sorted(tuple(c) for c in a["cells"]) == sorted(tuple(c) for c in b["cells"]))
+
+
+def corners_consistent(info):
+    """the corner containers of a mesh describe ITS OWN faces / cells (whatever the numbering of the corners)"""
+    fe, fa = info["fc"]
+    if len(fe) != len(fa):
+        return "face_corners: %d elements, %d owners" % (len(fe), len(fa))
+    if fe and sorted(zip(fa, fe)) != sorted((j, v) for j, f in enumerate(info["faces"]) for v in f):
+        return "face_corners are not the (face, vertex) incidences of the result's own faces"
+    ce, ca = info["cc"]
+    if ce and ca and sorted(zip(ca, ce)) != sorted((j, v) for j, c in enumerate(info["cells"]) for v in c):
+        return "cell_corners are not the (cell, vertex) incidences of the result's own cells"
+    cfe, cfa = info["cf"]
+    if cfe and cfa:
+        for fid, cid in zip(cfe, cfa):
+            if not (0 <= cid < len(info["cells"]) and 0 <= fid < len(info["faces"])
+                    and set(info["faces"][fid]) <= set(info["cells"][cid])):
+                return "cell_faces: face %s is not a face of cell %s" % (fid, cid)
+    return None
 
 
 def merge_expected(srcs):
